@@ -532,7 +532,9 @@ def _instantiated_parameter(parameterized, param):
 
 def _clear_params_cache(cls):
     """Drop the cached Parameters of a class and of all its subclasses."""
-    cls._param__private.params.clear()
+    # A new dict rather than .clear(): callers may still hold the old one
+    # (e.g. edit_constant keeps it to know which flags to restore)
+    cls._param__private.params = {}
     for subclass in cls.__subclasses__():
         _clear_params_cache(subclass)
 
